@@ -82,6 +82,8 @@ def jobs(tier, seed):
     for n in n4sizes:
         out.append({'name': f'd:n4:{n}', 'kind': 'n4', 'n': n, 'cost': 30})
     out.append({'name': 'd:evaluate_mask-sum', 'kind': 'sum', 'cost': 5})
+    for n, kw in ((1, dict(mode='numeric')), (3, dict(mode='numeric')), (5, dict(mode='numeric')), (3, dict(mode='alphanumeric')), (4, dict(mode='byte')), (9, dict(mode='byte', error='L')), (6, dict(mode='byte', error='Q')), (2, {})):
+        out.append({'name': f'f:micro-automatic-mask-end-to-end:n={n}:{kw}', 'kind': 'e2e', 'n': n, 'kw': kw, 'cost': 40})
     for v in (T.M1, T.M3, 1, 6, 7, 20, 40):
         out.append({'name': f'e:_encode-order:{T.version_name(v)}', 'kind': 'order', 'v': v, 'cost': 10 + max(v, 0)})
     return out
@@ -92,7 +94,7 @@ def run_job(spec):
     L_ = common.sx(('consts', 'encoder'))
     k = spec['kind']
     f = {'a': job_a, 'norm': job_norm, 'b': job_b, 'c': job_c, 'micro': job_micro, 'n3': job_n3, 'allfree': job_allfree,
-         'window': job_window, 'tworows': job_tworows, 'n4': job_n4, 'sum': job_sum, 'order': job_order}[k]
+         'window': job_window, 'tworows': job_tworows, 'n4': job_n4, 'sum': job_sum, 'order': job_order, 'e2e': job_e2e}[k]
     f(res, L_, spec)
     return res.as_dict()
 
@@ -766,6 +768,64 @@ def job_order(res, L_, spec):
     res.sample({'case': spec['name'], 'symbolic': 'whole codeword stream (free bits)', 'obligation': 'matrix given to the mask evaluation has light format/version areas'})
 
 
+def micro_score_terms(m, v, base_mask):
+    """ISO 7.8.3.2 scores of the four maskings of a Micro symbol given as final matrix `m` (masked with base_mask): list of 16-bit terms"""
+    n = T.size(v)
+    g = layout.classify(v)
+    out = []
+    for q in range(4):
+        def cellq(r, c):
+            b = m[r][c]
+            b = b.bits[0] if isinstance(b, SInt) else b
+            if g[r][c][0] == 'data':
+                return bxor(bxor(b, layout.mask_bit(base_mask, r, c, True)), layout.mask_bit(q, r, c, True))
+            return b
+        s1 = bsum([cellq(r, n - 1) for r in range(1, n)])
+        s2 = bsum([cellq(n - 1, c) for c in range(1, n)])
+        out.append(z3.If(z3.ULE(s1, s2), s1 * 16 + s2, s2 * 16 + s1))
+    return out
+
+
+def job_e2e(res, L_, spec):
+    """end to end: real segno.make on symbolic content with AUTOMATIC mask selection (Micro symbols): on every path the mask
+    in the returned symbol is the first one with the maximal ISO score of the symbol itself - for all contents"""
+    from symx.values import SBytes
+    from . import datapath as D
+    L2 = common.sx()
+    n, kw = spec['n'], dict(spec['kw'])
+    content = SBytes.fresh('c', n)
+    ex, paths = common.explore(lambda: L2.segno.make(content, micro=True, **kw), max_paths=600)
+    res.paths += len(paths)
+    acc = 0
+
+    def to_input(m):
+        return {'fn': 'e2e', 'data': list(common.bytes_from_model(m, content)), 'kw': kw}
+    for p in paths:
+        if p.status != 'ok':
+            if not isinstance(p.value, ValueError):
+                res.obligations += 1
+                r_, m_ = check(p.pc)
+                res.violation('exception', f'{type(p.value).__name__}: {p.value}', to_input(m_) if m_ is not None else {'fn': 'none'})
+            continue
+        acc += 1
+        q = p.value
+        v = D.version_const(q.version)
+        from ref import decoder
+        sym = decoder.read_symbol(q.matrix, v)
+        pm = sym['mask']
+        bt = Batch(res, p.pc)
+        bt.holds('reported-mask==mask-in-format-information', 'e2e', z3.BoolVal(pm == q.mask))
+        sc = micro_score_terms(sym['m'], v, pm)
+        for k in range(4):
+            bt.holds('chosen-mask-has-the-maximal-ISO-score', f'mask {pm} vs {k}', z3.UGE(sc[pm], sc[k]))
+            if k < pm:
+                bt.holds('first-best-mask-wins', f'mask {pm} vs earlier {k}', z3.UGT(sc[pm], sc[k]))
+        bt.run(to_input)
+    if not acc:
+        res.inconclusive.append('no accepting path')
+    res.sample({'case': spec['name'], 'symbolic': f'{n} content bytes', 'paths': len(paths), 'obligation': 'mask in the symbol == first mask with maximal ISO 7.8.3.2 score'})
+
+
 # ---------------------------------------------------------------- replay
 def replay(viol):
     import segno.encoder as enc
@@ -872,6 +932,29 @@ def replay(viol):
         return got != want, f'N4 for {d} dark modules of {n}x{n} = {got}, exact {want}'
     if fn == 'sum':
         return True, 'evaluate_mask is not the sum of the four scores'
+    if fn == 'e2e':
+        import segno
+        from ref import decoder
+        from . import datapath as D
+        data = bytes(inp['data'])
+        try:
+            q = segno.make(data, micro=True, **inp['kw'])
+        except Exception as e:
+            return not isinstance(e, ValueError), repr(e)
+        v = D.version_const(q.version)
+        sym = decoder.read_symbol(q.matrix, v)
+        n = T.size(v)
+        g = layout.classify(v)
+        scores = []
+        for k in range(4):
+            def cq(r, c):
+                b = sym['m'][r][c]
+                return b ^ layout.mask_bit(sym['mask'], r, c, True) ^ layout.mask_bit(k, r, c, True) if g[r][c][0] == 'data' else b
+            s1 = sum(cq(r, n - 1) for r in range(1, n))
+            s2 = sum(cq(n - 1, c) for c in range(1, n))
+            scores.append(s1 * 16 + s2 if s1 <= s2 else s2 * 16 + s1)
+        best = scores.index(max(scores))
+        return best != sym['mask'] or q.mask != sym['mask'], f'make({data!r}, micro=True, {inp["kw"]}) -> {q.designator} mask {q.mask}; ISO scores {scores}: first best {best}'
     if fn == 'order':
         from segno import consts
         v = inp['v']
